@@ -7,6 +7,7 @@ package sm2
 
 import (
 	"bytes"
+	"encoding/asn1"
 	"encoding/hex"
 	"encoding/json"
 	"fmt"
@@ -209,6 +210,37 @@ func TestGvcBoundedVectors(t *testing.T) {
 					if err != nil || !bytes.Equal(b, ct) {
 						fail(etag + ":ASN.1 round trip")
 					}
+					if back, err := DecryptAsn1(pk, a); err != nil || !bytes.Equal(back, p) {
+						fail(etag + ":ASN.1 decrypt")
+					}
+					// forged ASN.1 forms: a coordinate of C1 increased by a multiple of 2^256 (a different integer, not on
+					// the curve) or longer still must be an error - never the plaintext, never a panic
+					x := new(big.Int).SetBytes(ct[1:33])
+					y := new(big.Int).SetBytes(ct[33:65])
+					for fi, add := range []*big.Int{new(big.Int).Lsh(big.NewInt(1), 256), new(big.Int).Lsh(big.NewInt(5), 256), new(big.Int).Lsh(big.NewInt(1), 264), new(big.Int).Lsh(big.NewInt(1), 600)} {
+						for ci := 0; ci < 2; ci++ {
+							fx, fy := new(big.Int).Set(x), new(big.Int).Set(y)
+							if ci == 0 {
+								fx.Add(fx, add)
+							} else {
+								fy.Add(fy, add)
+							}
+							forged, err := asn1.Marshal(sm2Cipher{fx, fy, ct[65:97], ct[97:]})
+							if err != nil {
+								continue
+							}
+							func() {
+								defer func() {
+									if r := recover(); r != nil {
+										fail(fmt.Sprintf("%s:forged coordinate %d/%d:panic", etag, fi, ci))
+									}
+								}()
+								if out, err := DecryptAsn1(pk, forged); err == nil {
+									fail(fmt.Sprintf("%s:forged coordinate %d/%d accepted (plaintext recovered: %v)", etag, fi, ci, bytes.Equal(out, p)))
+								}
+							}()
+						}
+					}
 				}
 			})
 		}
@@ -277,7 +309,7 @@ func TestGvcBoundedVectors(t *testing.T) {
 		_, _ = Encrypt(&priv.PublicKey, nil, nonceReader(k), C1C3C2)
 	})
 	out, _ := json.Marshal(map[string]interface{}{"cases": cases, "failures": len(failing), "failing": failing,
-		"bound": fmt.Sprintf("GM/T 0003.5-2012 A.2 signature example (public key, ZA, e, r, s with the standard's nonce); %d random (key, message, id, nonce) tuples: signing equations recomputed with math/big, completeness, rejection of altered message / id / r / s / key / out-of-range values / non-strict DER; encryption round trips in both orderings with ASN.1 form and rejection of altered, short and foreign ciphertexts ; key exchange between random parties: equal keys of the requested length, cross-matching confirmation values, error for an ephemeral point off the curve; keXHat against 2^127 + (x mod 2^127) for x of every byte length 0..32 (seed %d)", rounds, seed)})
+		"bound": fmt.Sprintf("GM/T 0003.5-2012 A.2 signature example (public key, ZA, e, r, s with the standard's nonce); %d random (key, message, id, nonce) tuples: signing equations recomputed with math/big, completeness, rejection of altered message / id / r / s / key / out-of-range values / non-strict DER; encryption round trips in both orderings with ASN.1 form and rejection of altered, short and foreign ciphertexts and of ASN.1 forms whose C1 coordinate was increased by multiples of 2^256 or made longer; key exchange between random parties: equal keys of the requested length, cross-matching confirmation values, error for an ephemeral point off the curve; keXHat against 2^127 + (x mod 2^127) for x of every byte length 0..32 (seed %d)", rounds, seed)})
 	fmt.Println("GVCBOUNDED " + string(out))
 	if len(failing) > 0 {
 		t.Fail()
